@@ -69,7 +69,12 @@ class DPT2ByteFloat(DPTNumeric):
                 exponent += 1
                 knx_value /= 2
 
-            mantisse = round(knx_value) & 0x7FF
+            mantisse = round(knx_value)
+            # rounding to the F16 grid must not leave the declared range
+            # (e.g. 670755 -> 0x7FFF = 670760.96, which from_knx rejects for value_max 670760)
+            if not cls._test_boundaries((mantisse << exponent) / 100):
+                mantisse -= 1 if mantisse > 0 else -1
+            mantisse &= 0x7FF
             msb = exponent << 3 | mantisse >> 8
             if knx_value < 0:
                 msb |= 0x80
